@@ -420,6 +420,16 @@ def build(P):
             sessions.append(repl_case("C19-cycle-%d" % n, ents, meta=dict(units=units, oracle="cycle", n=n, names=names)))
         for s in sessions:
             yield ("cycle", [s])
+        # several enumerated types defined in ONE scope (global, and inside a procedure called twice): every name of every type keeps its own position and type
+        ents = ["TYPE Ea = (A0, A1)", "TYPE Eb = (B0, B1, B2)", "TYPE Ec = (C0)", "TYPE Ed = (D0, D1, D2, D3)", "DECLARE va : Ea", "DECLARE vb : Eb", "DECLARE vc : Ec", "DECLARE vd : Ed"]
+        units = []
+        for ty, names, var in [("Ea", ["A0", "A1"], "va"), ("Eb", ["B0", "B1", "B2"], "vb"), ("Ec", ["C0"], "vc"), ("Ed", ["D0", "D1", "D2", "D3"], "vd")]:
+            for nm in names:
+                for form in [nm, "%s + 1" % nm, "%s - 1" % nm, "%s = %s" % (nm, names[0]), "%s <> %s" % (nm, names[-1])]:
+                    ents.append(form); units.append(form)
+                ents += ["%s <- %s" % (var, nm), var, "OUTPUT %s" % var]; units.append("%s <- %s" % (var, nm))
+        ents += ["PROCEDURE Loc()\nTYPE La = (X0, X1)\nTYPE Lb = (Y0, Y1, Y2)\nDECLARE lb : Lb\nlb <- Y0\nOUTPUT lb, \" \", lb + 1, \" \", Y2, \" \", X1, \" \", B1, \" \", D3\nENDPROCEDURE", "CALL Loc()", "CALL Loc()", "B2", "D0 + 5"]
+        yield ("several-types", [repl_case("C19-multi", ents, meta=dict(units=units + ["loc1", "loc2"], oracle=None))])
         # cross-type stores through every channel
         ents_all = []
         progs = []
